@@ -7,6 +7,7 @@ from ref import terms as T
 from ref import universe as U
 
 ID = "C02"
+PARTS = ['if', 'match', 'matchg', 'stored', 'storedr']      # outcome classes every run must produce (guards against a part of the exploration silently not running)
 RULE = ("state = (declared type V, condition c, polarity): one generated function `def f(x: V): if c: use(x) else: use(x)` (or a match statement) per pair; "
         "the narrowed value at each use is read from the real visitor; oracle: for every universe object o in V the condition is evaluated under CPython and o "
         "must belong to the value of the taken branch; nothing outside V or the tested type may belong to a narrowed value; always-true/false verdicts and Never "
